@@ -157,6 +157,13 @@ def kinds(core_only: bool = False, raisers: bool = True):
         ('pad_opt', 2, lambda x, y: P('pad_opt', x, y), 'conv'),
         ('if_then', 2, lambda x, y: P('if_then', x, y), 'conv'),
         ('if_then3', 3, lambda x, y, z: P('if_then', x, y, z), 'conv'),
+        # the member aliases else_if_then / else_then: chains whose conditions overlap (the third accepts what the second accepts),
+        # so the order in which the pairs are tried is visible
+        ('if_then_chain2e', 3, lambda x, y, z: P('if_then_chain', N(2), P('one', C(A_)), x, P('one', C(B_)), y, z), 'conv'),
+        ('if_then_chain3', 3, lambda x, y, z: P('if_then_chain', N(3), P('one', C(A_)), x, P('one', C(B_)), y, P('range', C(A_), C(A_ + 2)), P('seq', z, P('one', C(B_)))), 'conv'),
+        ('if_then_chain3e', 3, lambda x, y, z: P('if_then_chain', N(3), P('one', C(A_)), x, P('one', C(B_)), y, P('range', C(A_), C(A_ + 2)), P('seq', z, P('one', C(B_))), x), 'conv'),
+        ('if_then_chain4', 3, lambda x, y, z: P('if_then_chain', N(4), P('one', C(A_)), x, P('one', C(B_)), y, P('range', C(A_), C(A_ + 2)), P('seq', z, P('one', C(B_))),
+                                                P('any'), P('seq', P('one', C(A_)), x)), 'conv'),
         ('separated_seq3', 3, lambda s, x, y: P('separated_seq', s, x, y, x), 'conv'),
         ('separated_seq1', 2, lambda s, x: P('separated_seq', s, x), 'conv'),
         ('rep_string', 1, lambda x: P('seq', P('rep_string', N(2), C(A_), C(B_)), x), 'conv'),
